@@ -357,6 +357,15 @@ def main(ctx):
             plan_mismatch += 1
             if not oracle_failed:
                 unexplained.append({"request": rq, "impl": im, "model": mo})
+                # failing-input search: the same layer shape with concrete values (the plan level cannot see values)
+                if dom and n <= 23 and cov.get("large_value_followups", 0) < 3:
+                    cov["large_value_followups"] = cov.get("large_value_followups", 0) + 1
+                    sd = ctx.seed * 7919 + n
+                    bad = L.large_value_followup(sd, b, n, mn, op, codes)
+                    if bad:
+                        fail({"backend": CLASS[b], "kind": "wrong-vector-large-n"}, n * 100 + 60,
+                             {"mode": "large-value", "backend": b, "n": n, "min": mn, "opt": op, "codes": codes, "seed": sd, "failure": bad},
+                             f"{CLASS[b]}(n={n}, min={mn}, opt={op}) on layer shape {codes}: {bad}")
     cov["plan_cases"] = len(pcs)
     ctx.sample({"plan_request": reqs[len(reqs) // 2], "model_plan": model[len(reqs) // 2]})
     t_plans = time.time() - t0
@@ -678,6 +687,9 @@ def replay(ctx, path):
         bad = classify("binary", r, want)
         print("implementation:", {k: (v if k != "ok" else v[:16]) for k, v in r.items()}); print("oracle:", want[:16])
         print("verdict:", bad[1] if bad else "holds"); return 1 if bad else 0
+    if mode == "large-value":
+        bad = L.large_value_followup(rp["seed"], rp["backend"], rp["n"], rp["min"], rp["opt"], rp["codes"])
+        print(f"{CLASS[rp['backend']]}(n={rp['n']}) on layer shape {rp['codes']}:", bad or "holds"); return 1 if bad else 0
     if mode == "reuse":
         import random
         bad, _ = L.reuse_sequence(random.Random(rp["seed"]), rp["backend"], rp["n"], rp["min"], rp["opt"])
